@@ -105,6 +105,15 @@ def _ops(nr, nc, ds, rng):
         ("inflow", lambda f: f.inflow_idxs(mask)), ("outflow", lambda f: f.outflow_idxs(mask)),
         ("interbasin", lambda f: f.interbasin_mask(mask)),
         ("smooth_rivlen", lambda f: f.smooth_rivlen(full, 3.0)),
+        # round-2 seeds: user-supplied upstream area that is positive outside the network; river methods
+        ("ucat_outlets_dmm_upa", lambda f: f.ucat_outlets(cs, uparea=full, method="dmm")),
+        ("ucat_outlets_eam_upa", lambda f: f.ucat_outlets(cs, uparea=full, method="eam_plus")),
+        ("upscale_dmm_upa", lambda f: f.upscale(cs, method="dmm", uparea=full)[1]),
+        ("upscale_ihu_upa", lambda f: f.upscale(cs, method="ihu", uparea=full)[1]),
+        ("river_depth", lambda f: f.river_depth(qbankfull=full * 10, rivwth=full + 1, rivslp=full / 1000.0)),
+        ("river_depth_zs", lambda f: f.river_depth(qbankfull=full * 10, rivwth=full + 1, zs=elv, rivdst=f.distnc)),
+        ("classify_estuaries", lambda f: f.classify_estuaries(elv - 5, full + 1)),
+        ("distnc", lambda f: f.distnc), ("area", lambda f: f.area),
         ("add_pits", lambda f: (f.add_pits(idxs=outl[:1]), f.idxs_ds.copy(), f.idxs_pit, f.rank)[1:]),
     ]
     return ops
